@@ -168,7 +168,6 @@ func (r *runner) failf(format string, args ...any) {
 func runCase(t fataler, c *dbCase) map[string]int {
 	writeJournal(c)
 	t0 := time.Now()
-	defer func() { timePrefill += 0 }()
 	for _, p := range c.Prefill {
 		if err := storePrefill(p); err != nil {
 			t.Fatalf("harness: prefill %v failed: %s", p, err)
@@ -206,8 +205,15 @@ func runCase(t fataler, c *dbCase) map[string]int {
 	return classes
 }
 
-func (r *runner) quiet(what string) int {
-	parked, ok, dump := waitQuiet()
+// quiet waits for the API to come to rest. satisfied (optional) tells whether the
+// reply the last message must produce has arrived; if it has not although the
+// API looks at rest, the harness looks ten more times before it believes it.
+func (r *runner) quiet(what string, satisfied func() bool) int {
+	parked, ok, dump := waitQuiet(2)
+	if ok && satisfied != nil && !satisfied() {
+		stats.Class("rest_rechecked_because_reply_missing")
+		parked, ok, dump = waitQuiet(10)
+	}
 	if !ok {
 		// Handler goroutines are stuck. Whatever they hold stays locked, so no
 		// further case can be executed in this process: report and end it. The
@@ -228,7 +234,7 @@ func (r *runner) runSequential(classes map[string]int) {
 		cm := classify(raw)
 		before := r.conn.count()
 		r.conn.handle(raw)
-		parked := r.quiet(fmt.Sprintf("after message %d", i))
+		parked := r.quiet(fmt.Sprintf("after message %d", i), func() bool { return r.terminalArrived(cm, before) })
 		all := r.conn.snapshot()
 		r.checkStep(i, cm, all[before:], classes)
 		if parked != len(r.m.subs) {
@@ -240,7 +246,7 @@ func (r *runner) runSequential(classes map[string]int) {
 	for _, op := range sortedKeys(r.m.subs) {
 		before := r.conn.count()
 		r.conn.handle([]byte(op + "|cancel"))
-		r.quiet("after the final cancel of " + op)
+		r.quiet("after the final cancel of "+op, nil)
 		r.checkStep(len(r.c.Msgs), msg{Kind: kCancel, OpID: op}, r.conn.snapshot()[before:], classes)
 	}
 	if total, _, dump := handlerGoroutines(); total != 0 {
@@ -248,10 +254,42 @@ func (r *runner) runSequential(classes map[string]int) {
 	}
 }
 
+// terminalArrived: has the reply that ends the handling of cm been recorded?
+func (r *runner) terminalArrived(cm msg, before int) bool {
+	var want []string
+	switch cm.Kind {
+	case kGet:
+		want = []string{"ok", "error"}
+	case kCreate, kUpdate, kInsert, kDelete:
+		want = []string{"success", "error"}
+	case kQuery, kQsub:
+		want = []string{"done", "error"}
+	case kMalformed:
+		want = []string{"error"}
+	default:
+		return true
+	}
+	for _, rp := range r.conn.snapshot()[before:] {
+		for _, t := range want {
+			if rp.typ == t && (rp.opID == cm.OpID || cm.Kind == kMalformed) {
+				return true
+			}
+		}
+	}
+	return false
+}
+
 // checkStep compares the replies produced by one message with the protocol.
 func (r *runner) checkStep(i int, cm msg, got []reply, classes map[string]int) {
 	bad := func(format string, args ...any) {
-		r.failf("message %d %q (%s): %s\n  replies to this message: %s", i, clip(string(cm.Raw), 120), cm.Kind, fmt.Sprintf(format, args...), typesOf(got))
+		_, _, dump := handlerGoroutines()
+		var rel []string
+		for _, g := range strings.Split(dump, "\n\n") {
+			if strings.Contains(g, "portbase/api.") || strings.Contains(g, "portbase/database") {
+				rel = append(rel, g)
+			}
+		}
+		r.failf("message %d %q (%s): %s\n  replies to this message: %s\n  replies recorded now: %d\n  goroutines inside portbase api/database at the time of the verdict:\n%s", i, clip(string(cm.Raw), 120), cm.Kind, fmt.Sprintf(format, args...), typesOf(got), r.conn.count(), strings.Join(rel, "\n\n"))
 	}
 	own := func(types ...string) (mine, rest []reply) {
 		for _, g := range got {
@@ -483,7 +521,7 @@ func (r *runner) runConcurrent(classes map[string]int) {
 		msgs = append(msgs, classify(r.c.Msgs[i].Raw))
 		r.conn.handle(r.c.Msgs[i].Raw)
 	}
-	r.quiet("after all messages were sent")
+	r.quiet("after all messages were sent", nil)
 	// end of connection: cancel every subscription that is registered
 	for round := 0; round < 8; round++ {
 		_, subs := r.conn.dbapi.VerifState()
@@ -494,7 +532,7 @@ func (r *runner) runConcurrent(classes map[string]int) {
 			msgs = append(msgs, msg{Kind: kCancel, OpID: op})
 			r.conn.handle([]byte(op + "|cancel"))
 		}
-		r.quiet("after cancelling the remaining subscriptions")
+		r.quiet("after cancelling the remaining subscriptions", nil)
 	}
 	if total, _, dump := handlerGoroutines(); total != 0 {
 		r.failf("%d handler goroutines are left after every registered subscription was cancelled\n%s", total, dump)
